@@ -402,30 +402,70 @@ class Model:
                         domains[other.name].discard(val)
         return True
 
+    def _linearize(self, expr) -> tuple[dict[str, int], int]:
+        """Normalise an expression tree to ({variable name: coefficient}, constant)."""
+        if isinstance(expr, Expr):
+            expr = expr.data
+        if isinstance(expr, IntVar):
+            return {expr.name: 1}, 0
+        if isinstance(expr, int):
+            return {}, expr
+        kind = expr[0]
+        if kind == "mul":
+            a, b = expr[1], expr[2]
+            coef, operand = (b, a) if isinstance(b, int) else (a, b)
+            terms, const = self._linearize(operand)
+            return {v: c * coef for v, c in terms.items()}, const * coef
+        if kind == "rsub":  # (rsub, var, c) means c - var
+            terms, const = self._linearize(expr[1])
+            return {v: -c for v, c in terms.items()}, expr[2] - const
+        if kind not in ("add", "sub"):
+            raise ValueError(f"Unsupported expression: {kind}")
+        sign = 1 if kind == "add" else -1
+        terms, const = self._linearize(expr[1])
+        terms = dict(terms)
+        other, other_const = self._linearize(expr[2])
+        for v, c in other.items():
+            terms[v] = terms.get(v, 0) + sign * c
+        return terms, const + sign * other_const
+
     def _propagate_ne_expr(self, left, right, is_ne: bool, domains: dict[str, set[int]]) -> bool:
-        """Propagate (left_expr != right_expr) or (left_expr == right_expr)."""
-        left_terms, left_const = self._flatten_sum(left)
-        right_terms, right_const = self._flatten_sum(right)
+        """Propagate (left_expr != right_expr) or (left_expr == right_expr) for linear expressions."""
+        terms, const = self._linearize(("sub", left, right))
+        terms = {v: c for v, c in terms.items() if c != 0}
 
-        if len(left_terms) == 1 and len(right_terms) == 1:
-            var1, var2 = left_terms[0], right_terms[0]
-            offset = right_const - left_const
-
-            if is_ne:
-                # var1 != var2 + offset
-                if len(domains[var1.name]) == 1:
-                    v1 = next(iter(domains[var1.name]))
-                    domains[var2.name].discard(v1 - offset)
-                if len(domains[var2.name]) == 1:
-                    v2 = next(iter(domains[var2.name]))
-                    domains[var1.name].discard(v2 + offset)
+        # sum(coef * var) + const ?= 0, split into the fixed part and the open variables
+        fixed = const
+        open_vars = []
+        for name, coef in terms.items():
+            dom = domains[name]
+            if len(dom) == 1:
+                fixed += coef * next(iter(dom))
             else:
-                # var1 == var2 + offset
-                valid1 = {v for v in domains[var1.name] if (v - offset) in domains[var2.name]}
-                valid2 = {v for v in domains[var2.name] if (v + offset) in domains[var1.name]}
-                if not valid1 or not valid2:
+                open_vars.append((name, coef))
+
+        if not open_vars:
+            return (fixed != 0) if is_ne else (fixed == 0)
+
+        if len(open_vars) == 1:
+            name, coef = open_vars[0]
+            if is_ne:
+                domains[name] = {v for v in domains[name] if coef * v + fixed != 0}
+            else:
+                domains[name] = {v for v in domains[name] if coef * v + fixed == 0}
+            return bool(domains[name])
+
+        if not is_ne:
+            # Bounds consistency: each variable must be able to reach 0 together with the others
+            lo = fixed + sum(min(c * min(domains[v]), c * max(domains[v])) for v, c in open_vars)
+            hi = fixed + sum(max(c * min(domains[v]), c * max(domains[v])) for v, c in open_vars)
+            for name, coef in open_vars:
+                dom = domains[name]
+                own_lo = min(coef * min(dom), coef * max(dom))
+                own_hi = max(coef * min(dom), coef * max(dom))
+                rest_lo, rest_hi = lo - own_lo, hi - own_hi
+                domains[name] = {v for v in dom if rest_lo <= -coef * v <= rest_hi}
+                if not domains[name]:
                     return False
-                domains[var1.name] = valid1
-                domains[var2.name] = valid2
 
         return True
